@@ -104,6 +104,8 @@ NewEndpoint(cfg, isn, rnxt0, pwnd0, now) ==
       txCount  |-> 0, rxCount |-> 0, synAcks |-> 0, lastRxAt |-> now, lastWire |-> now,
       lastGainAt |-> now,      \* when a packet last brought something: payload or a FIN taken in, new data acknowledged,
                                \* a state change (packets that bring nothing do not keep a closing connection alive)
+      orphanPk |-> 0,          \* data packets taken in since the application dropped the read half: nobody will read
+                               \* them, so they stay where they are and at most Slots(e) of them fit
       trans    |-> [on |-> FALSE, st |-> "", t |-> "syn", ackSyn |-> FALSE, ackFin |-> FALSE, seqNext |-> FALSE],
                               \* the packet being processed and the state it met (C17.Transition)
       segd     |-> 0,          \* bytes in the sender's segment queue at the end of the last poll
